@@ -555,7 +555,14 @@ def run(ctx):
     ctx.extra["exhaustive"] = False      # the run as a whole samples; only the sub-space below is enumerated completely
     ctx.extra["exhaustive_subspace"] = {"name": "small:* (see rule)", "complete": opts.get("small", "1") == "1",
                                         "matrices": sum(s.total for s in spaces) if opts.get("small", "1") == "1" else 0}
-    conf = {k: n for k, n in ctx.counters.items() if k.startswith(("exhaustive:", "arm:"))}
+    conf = {}
+    for a in ("yes", "no"):
+        for b in ("yes", "no"):
+            conf["exhaustive:oracle=%s,checker=%s" % (a, b)] = 0
+    for a in ("useful", "useless"):
+        for b in ("useful", "useless"):
+            conf["arm:oracle=%s,checker=%s" % (a, b)] = 0
+    conf.update({k: n for k, n in ctx.counters.items() if k.startswith(("exhaustive:", "arm:"))})
     ctx.extra["verdict_confusion_matrix"] = conf
     ctx.extra["matrices_by_shape_class"] = {k[6:]: n for k, n in sorted(ctx.counters.items()) if k.startswith("shape:")}
     for k in [k for k in ctx.counters if k.startswith("shape:")]:
